@@ -126,7 +126,7 @@ func TestVerifC13(t *testing.T) {
 				}
 			}
 		} else {
-			mixes = append(mixes, []int{0, 1, 2}, []int{0, 0, 0})
+			mixes = append(mixes, []int{0, 1, 2}, []int{0, 0, 0}, []int{0, 0, 1}, []int{0, 0, 2})
 		}
 
 		if cipherName != "aes" { // second cipher: the 2-thread mixes only
@@ -145,6 +145,8 @@ func TestVerifC13(t *testing.T) {
 							continue
 						}
 						var log []c13Enc
+						var curHI *HostInfo
+						var curCS *ConnectionState
 						name := fmt.Sprintf("cipher=%s lock=%v start=%s mix=%v twice=%v", cipherName, lockNeeded, c13CtrName(start, fx.hsIndex), mix, twice)
 						setup := func() {
 							log = log[:0]
@@ -153,6 +155,11 @@ func TestVerifC13(t *testing.T) {
 							cs.messageCounter.Store(start)
 							hi := &HostInfo{remoteIndexId: orig.remoteIndexId, localIndexId: orig.localIndexId, vpnAddrs: orig.vpnAddrs, ConnectionState: cs, remotes: orig.remotes}
 							hi.SetRemote(orig.GetRemote())
+							curHI, curCS = hi, cs
+							// two sequential sends before the threads start (register already-used nonces in the log; from
+							// ceiling-2 the first uses ceiling-1 and the second exhausts the tunnel)
+							senders[0].run(hi, cs)
+							senders[0].run(hi, cs)
 							for _, si := range mix {
 								s := senders[si]
 								sched.Go(func() {
@@ -172,6 +179,10 @@ func TestVerifC13(t *testing.T) {
 							if x.Aborted {
 								c.Violation("C13: "+x.Reason, map[string]any{"scenario": name, "schedule": x.Choices})
 								return
+							}
+							// sequential sends after the threads joined: whatever the race left behind must not lead to a reuse
+							for _, si := range []int{0, 0, 1, 2, 0} {
+								senders[si].run(curHI, curCS)
 							}
 							seen := map[uint64]bool{}
 							last := uint64(0)
